@@ -4,6 +4,7 @@ Expressions are tuples:
   ('c', v) ('v', name) ('+', a, b) ('*', a, b) ('/', a, b) ('sin', a) ('cos', a) ('exp', a) ('tanh', a)
   ('pow', a, n)   integer n >= 0
   ('D', mode, var, body, at)   derivative of (lambda var: body) evaluated at `at`; mode is ignored here
+  ('P', mode, var, body, at)   the primal value (lambda var: body)(at) as returned by a differential operator
 
 resolve(D(λy.B)(A)) = subst(∂_y resolve(B), y := resolve(A)); binders are unique so capture cannot
 occur and the reference cannot exhibit perturbation confusion.  No simplification; evaluation in floats.
@@ -59,6 +60,9 @@ def resolve(e):
     if t == "D":
         _, mode, var, body, at = e
         return subst(d(resolve(body), var), var, resolve(at))
+    if t == "P":  # the primal value of (lambda var: body)(at) as handed back by a differential operator
+        _, mode, var, body, at = e
+        return subst(resolve(body), var, resolve(at))
     return (t,) + tuple(resolve(a) for a in e[1:])
 
 
@@ -88,7 +92,7 @@ def mentions(e, name):
         return e[1] == name
     if t == "pow":
         return mentions(e[1], name)
-    if t == "D":
+    if t in ("D", "P"):
         return mentions(e[3], name) or mentions(e[4], name)
     return any(mentions(a, name) for a in e[1:])
 
@@ -99,7 +103,7 @@ def ndepth(e):
         return 0
     if t == "pow":
         return ndepth(e[1])
-    if t == "D":
+    if t in ("D", "P"):
         return 1 + max(ndepth(e[3]), ndepth(e[4]))
     return max(ndepth(a) for a in e[1:])
 
@@ -110,6 +114,6 @@ def size(e):
         return 1
     if t == "pow":
         return 1 + size(e[1])
-    if t == "D":
+    if t in ("D", "P"):
         return 1 + size(e[3]) + size(e[4])
     return 1 + sum(size(a) for a in e[1:])
